@@ -714,7 +714,7 @@ def purity_runs(P):
             raise AnalysisError("every returning path of the solver rests on a test that is not modelled (footprint=%s)" % fp)
         rets = [r for r in rets if not any(d[0].startswith("unknown test") for d in r.path)]
         tower = {RS.atom_of(S.xm), RS.atom_of(S.ym)}
-        general = [r for r in rets if not (RS.zero_atoms(r) - tower)]  # special-case paths (an input quantity vanishes) are R-PATHS' matter
+        general = [r for r in rets if not RS.special_atoms(r, tower)]  # special-case paths (an input quantity vanishes) are R-PATHS' matter
         if general:
             rets = general
         th = alg.sym("bldfm.config.NUM_THREADS") - ONE
@@ -745,8 +745,8 @@ def purity_runs(P):
         S2, res2 = SA.run(fp, False, "generic", precision="single")
         r1 = [RS.PathView(S, r) for r in rets]
         res2g = [r for r in res2 if r.kind == "return" and not any(d[0].startswith("unknown test") for d in r.path)]
-        if any(not (RS.zero_atoms(r) - tower) for r in res2g):
-            res2g = [r for r in res2g if not (RS.zero_atoms(r) - tower)]
+        if any(not RS.special_atoms(r, tower) for r in res2g):
+            res2g = [r for r in res2g if not RS.special_atoms(r, tower)]
         r2 = [RS.PathView(S2, r) for r in res2g]
         site = "src/bldfm/solver.py::steady_state_transport_solver::precision (footprint=%s)" % fp
         obs.append(req_ob("R-PREC", site, "both precisions have the same set of paths", len(r1) == len(r2)))
@@ -954,11 +954,14 @@ def _single_stub(log, cfg=None):
     return stub
 
 
-def _driver_config(P, use_cache=False):
-    ov = {"config.parallel.use_cache": use_cache, "config.solver.footprint": True, "config.met.timestamps": None}
+def _driver_config(P, use_cache=False, z0=False):
+    # (z0=True: the full forcing - a configured roughness length and free-form time labels, which then stand in the results' "timestamp")
+    ov = {"config.parallel.use_cache": use_cache, "config.solver.footprint": True,
+          "config.met.timestamps": PyList("config.met.timestamps", length=alg.sym("n_steps", pos=True, integer=True)) if z0 else None}
     for f in ("ustar", "mol", "wind_speed", "wind_dir"):
         ov["config.met." + f] = PyList("config.met." + f, length=alg.sym("n_steps", pos=True, integer=True))
-    ov["config.met.z0"] = None
+    # (a configured roughness length is part of every step's forcing: a one-step copy that leaves it behind is another run)
+    ov["config.met.z0"] = alg.sym("z0_configured", pos=True) if z0 else None
     return CM.make_obj(P, "BLDFMConfig", "config", ov)
 
 
@@ -1077,8 +1080,9 @@ def driver_obligations(P):
                 obs.append(req_ob("R-SERIAL", site_mt, "each entry is the time series of its own tower" + fl_tag, ok, detail=why, key={"driver": "multitower", "flux": flux is not None}))
     # parallel
     site_p = "src/bldfm/interface.py::run_bldfm_parallel"
-    for strategy in ("towers", "time", "both"):
-        cfg = _driver_config(P)
+    for strategy, with_z0 in (("towers", False), ("time", False), ("both", False), ("towers", True), ("time", True), ("both", True)):
+        cfg = _driver_config(P, z0=with_z0)
+        stag = repr(strategy) + (" (roughness length and time labels configured)" if with_z0 else "")
         towers = cfg.attrs["towers"].items
         log = []
         pool_calls = []
@@ -1172,13 +1176,13 @@ def driver_obligations(P):
         res = CM.run_paths(P, "bldfm.interface", "run_bldfm_parallel", [cfg], {"max_workers": alg.sym("workers", pos=True, integer=True), "parallel_over": strategy}, stubs=stubs)
         rets = [r for r in res if r.kind == "return"]
         okp = bool(rets) and len(res) == len(rets) and all(isinstance(r.value, Tup) and r.value.kind == "dict" for r in rets)
-        obs.extend(step_state_obligations(res, site_p, "parallel over %s" % strategy))
-        obs.append(req_ob("R-ORDERED", site_p, "strategy %r returns a mapping on every path (one per schedule followed)" % strategy, okp, detail=str([(r.kind, r.raise_desc) for r in res])[:200]))
+        obs.extend(step_state_obligations(res, site_p, "parallel over %s" % stag))
+        obs.append(req_ob("R-ORDERED", site_p, "strategy %s returns a mapping on every path (one per schedule followed)" % stag, okp, detail=str([(r.kind, r.raise_desc) for r in res])[:200]))
         for okc, what, line in chunk_checks:
-            obs.append(req_ob("R-ORDERED", site_p, "strategy %r: the chunk size handed to Executor.map is at least one for every worker count and task count (a smaller one makes map raise)" % strategy, okc,
+            obs.append(req_ob("R-ORDERED", site_p, "strategy %s: the chunk size handed to Executor.map is at least one for every worker count and task count (a smaller one makes map raise)" % stag, okc,
                               detail=None if okc else "line %s: chunksize = %s can be below one (more workers than tasks)" % (line, what)))
         used_pool = any(k in ("map", "submit") for k, _ in pool_calls)
-        obs.append(req_ob("R-ORDERED", site_p, "strategy %r distributes work through the executor (Executor.map keeps task order, a Future carries its own task's result; completion order is an unknown sequence)" % strategy, used_pool, detail=str(sorted({k for k, _ in pool_calls}))))
+        obs.append(req_ob("R-ORDERED", site_p, "strategy %s distributes work through the executor (Executor.map keeps task order, a Future carries its own task's result; completion order is an unknown sequence)" % stag, used_pool, detail=str(sorted({k for k, _ in pool_calls}))))
         for ret in (rets if okp else []):
             sched = "; ".join("%s=%s" % (d, c) for d, c in ret.path if "finish in submission order" in d)
             sched = " [%s]" % sched if sched else ""
@@ -1186,20 +1190,20 @@ def driver_obligations(P):
             okk = len(items) == len(towers) and all(pw.same_value(k, t.attrs["name"]) for (k, _), t in zip(items, towers))
             if not okk and has_unknown(ret.value):
                 okk = None
-            obs.append(req_ob("R-ORDERED", site_p, "strategy %r: results keyed by tower name in configuration order" % strategy, okk, detail=repr([k for k, _ in items])[:200] + sched))
+            obs.append(req_ob("R-ORDERED", site_p, "strategy %s: results keyed by tower name in configuration order" % stag, okk, detail=repr([k for k, _ in items])[:200] + sched))
             for (k, v), t in zip(items, towers):
                 ok, why = _unk(_expect_series(t, nsteps, None, "None", cfg, P), v)
-                obs.append(req_ob("R-ORDERED", site_p, "strategy %r: the entry of a tower is the time-ordered list of its own single runs" % strategy, ok, detail=(why or "") + sched if why else None, key={"strategy": strategy}))
+                obs.append(req_ob("R-ORDERED", site_p, "strategy %s: the entry of a tower is the time-ordered list of its own single runs" % stag, ok, detail=(why or "") + sched if why else None, key={"strategy": strategy}))
             mis = [e for e in ret.events if e[0] == "misaligned-slice"]
-            obs.append(req_ob("R-ORDERED", site_p, "strategy %r: flat results are re-assembled at the task boundaries" % strategy, not mis, detail=str(mis[:1]) if mis else None))
+            obs.append(req_ob("R-ORDERED", site_p, "strategy %s: flat results are re-assembled at the task boundaries" % stag, not mis, detail=str(mis[:1]) if mis else None))
             frag = [e for e in ret.events if e[0] in ("fragile-partition", "partition-gap")]
-            obs.append(req_ob("R-ORDERED", site_p, "strategy %r: work split into blocks covers every task exactly once (cut points computed exactly, first block starts at 0, last block ends at the number of tasks)" % strategy,
+            obs.append(req_ob("R-ORDERED", site_p, "strategy %s: work split into blocks covers every task exactly once (cut points computed exactly, first block starts at 0, last block ends at the number of tasks)" % stag,
                               not frag, detail="; ".join("line %s: %s" % (e[1], e[2]) for e in frag[:1]) or None, key={"strategy": strategy, "clause": "partition"}))
         # R-RESET: before each worker's solve the thread count is one and the FFT singleton is dropped
         for b, seq, events, calls in log:
             set1 = [e for e in events if e[0] == "attr-store" and e[2][1] == "NUM_THREADS" and isinstance(e[2][2], Expr) and e[2][2].eq(ONE)]
             reset = [c for c in calls if c.endswith("reset_fft_manager")]
-            obs.append(req_ob("R-RESET", "src/bldfm/interface.py::worker (strategy %r)" % strategy, "the worker sets the runtime thread count to one and drops the inherited FFT manager before solving", bool(set1) and bool(reset),
+            obs.append(req_ob("R-RESET", "src/bldfm/interface.py::worker (strategy %s)" % stag, "the worker sets the runtime thread count to one and drops the inherited FFT manager before solving", bool(set1) and bool(reset),
                               detail=None if set1 and reset else "NUM_THREADS=1: %s, reset_fft_manager: %s" % (bool(set1), bool(reset)), key={"strategy": strategy}))
     # unknown strategy raises
     cfg = _driver_config(P)
